@@ -614,3 +614,125 @@ Proof.
   - unfold eol_ok in He. destruct (sep_paren p (e_sep e)) as [p'|] eqn:Hs; [|discriminate].
     eapply fend_sep; eassumption.
 Qed.
+
+(* ---- combinators for actions that look without consuming -------------------------------------------------------------- *)
+
+Lemma runs_peek {A B} (T : bytes -> Prop) (m : M A) (f : A -> M B) a s b b' v :
+  (forall r t, r_rest r = s ++ t -> T t -> m r = Ok (a, r)) -> runs T (f a) s b b' v ->
+  runs T (bindM m f) s b b' v.
+Proof. intros Hm Hf r t E P W Ht. unfold bindM. rewrite (Hm r t E Ht). apply Hf; assumption. Qed.
+
+Lemma runsN_0 {A} (T : bytes -> Prop) (m : M A) s b b' v : runsN 0 T m s b b' v.
+Proof. intros r t _ _ _ L. lia. Qed.
+
+Lemma runs_try_ok {A} (T : bytes -> Prop) (m : M A) s b b' v :
+  runs T m s b b' v -> runs T (try_ok m) s b b' (Some v).
+Proof.
+  intros H r t E P W Ht. destruct (H r t E P W Ht) as (r' & F & Q). exists r'. unfold try_ok. rewrite F. auto.
+Qed.
+
+Lemma try_ok_fails {A} (m : M A) r p k : m r = Err (ZErr p k) -> try_ok m r = Ok (None, r).
+Proof. intros H. unfold try_ok. rewrite H. reflexivity. Qed.
+
+(* ---- read_field on a token ------------------------------------------------------------------------------------------------ *)
+
+Definition tokch (c : N) : bool := plainb c && (c <? 128).
+
+Lemma tokch_plain tok : forallb tokch tok = true -> forallb plainb tok = true.
+Proof.
+  rewrite !forallb_forall. intros H c Hc. specialize (H c Hc). unfold tokch in H. apply andb_true_iff in H. tauto.
+Qed.
+
+Lemma plain_no_nl tok : forallb plainb tok = true -> Forall (fun c => c <> 10) tok.
+Proof.
+  rewrite forallb_forall, Forall_forall. intros H c Hc. specialize (H c Hc). apply plainb_spec in H. tauto.
+Qed.
+
+Lemma scan_field_tok : forall tok t len, forallb plainb tok = true -> fend t ->
+  len + N.of_nat (length tok) <= 65536 -> scan_field (tok ++ t) len = Ok (len + N.of_nat (length tok)).
+Proof.
+  induction tok as [|c tok IH]; intros t len Hp Ht Hl.
+  - cbn [app length]. unfold fend in Ht. destruct t as [|d t]; cbn [scan_field]; rewrite Ht; f_equal; lia.
+  - cbn [forallb] in Hp. apply andb_true_iff in Hp. destruct Hp as [Hc Hp].
+    cbn [app scan_field]. pose proof (fstart_plain c (tok ++ t) Hc) as Hf. unfold fstart in Hf. rewrite Hf.
+    change MAX_READ_FIELD_SIZE with 65536. cbn [length] in Hl.
+    destruct (65536 <? len + 1) eqn:E; [apply N.ltb_lt in E; lia|].
+    rewrite IH; [f_equal; cbn [length]; lia|exact Hp|exact Ht|lia].
+Qed.
+
+Lemma utf8_ascii s : forallb (fun c => c <? 128) s = true -> utf8_valid s = true.
+Proof.
+  induction s as [|c s IH]; [reflexivity|]. cbn [forallb]. intros H. apply andb_true_iff in H. destruct H as [Hc Hs].
+  cbn [utf8_valid]. rewrite Hc. apply IH. exact Hs.
+Qed.
+
+Lemma tokch_ascii tok : forallb tokch tok = true -> forallb (fun c => c <? 128) tok = true.
+Proof.
+  rewrite !forallb_forall. intros H c Hc. specialize (H c Hc). unfold tokch in H. apply andb_true_iff in H. tauto.
+Qed.
+
+Theorem read_field_runs {T E} (parse : bytes -> T + E) k tok v b :
+  forallb tokch tok = true -> N.of_nat (length tok) <= 65536 -> parse tok = inl v ->
+  runs fend (read_field parse k) tok b b v.
+Proof.
+  intros Hc Hl Hp r t Er P W Ht. unfold read_field.
+  rewrite Er, (scan_field_tok tok t 0 (tokch_plain _ Hc) Ht) by lia.
+  rewrite N.add_0_l, Nat2N.id, firstn_app_exact, (utf8_ascii _ (tokch_ascii _ Hc)), Hp.
+  eexists. split; [reflexivity|]. subst b. apply post_adv; [exact Er|]. apply plain_no_nl, tokch_plain. exact Hc.
+Qed.
+
+Theorem read_field_fails {T E} (parse : bytes -> T + E) k tok e r t :
+  forallb tokch tok = true -> N.of_nat (length tok) <= 65536 -> parse tok = inr e ->
+  r_rest r = tok ++ t -> fend t -> read_field parse k r = Err (ZErr (r_pos r) (k e)).
+Proof.
+  intros Hc Hl Hp Er Ht. unfold read_field.
+  rewrite Er, (scan_field_tok tok t 0 (tokch_plain _ Hc) Ht) by lia.
+  rewrite N.add_0_l, Nat2N.id, firstn_app_exact, (utf8_ascii _ (tokch_ascii _ Hc)), Hp. reflexivity.
+Qed.
+
+(* ---- expect_field ------------------------------------------------------------------------------------------------------------ *)
+
+Lemma nth_error_app_len {A} (a t : list A) k : nth_error (a ++ t) (length a + k) = nth_error t k.
+Proof. rewrite nth_error_app2 by lia. f_equal. lia. Qed.
+
+Lemma at_field_end_at_app a t : at_field_end_at (a ++ t) (length a) = at_field_end_at t 0.
+Proof.
+  unfold at_field_end_at, get_eol_at. rewrite (nth_error_app_len a t 1).
+  pose proof (nth_error_app_len a t 0) as H0. rewrite Nat.add_0_r in H0. rewrite H0. reflexivity.
+Qed.
+
+Lemma expect_field_yes fld cmp b : cmp fld fld = true -> Forall (fun c => c <> 10) fld ->
+  runs fend (expect_field_impl fld cmp) fld b b true.
+Proof.
+  intros Hc Hn r t E P W Ht. unfold expect_field_impl.
+  rewrite E, firstn_app_exact, Nat.eqb_refl, Hc, at_field_end_at_app. unfold fend in Ht. rewrite Ht. cbn [bind].
+  eexists. split; [reflexivity|]. subst b. apply post_adv; assumption.
+Qed.
+
+(* the field goes on after the expected word *)
+Lemma expect_field_cont fld cmp r c l : r_rest r = fld ++ c :: l -> plainb c = true ->
+  expect_field_impl fld cmp r = Ok (false, r).
+Proof.
+  intros E Hc. unfold expect_field_impl. rewrite E, firstn_app_exact, Nat.eqb_refl, at_field_end_at_app.
+  pose proof (fstart_plain c l Hc) as Hf. unfold fstart in Hf. rewrite Hf. cbn [bind].
+  destruct (cmp fld fld); reflexivity.
+Qed.
+
+Lemma expect_field_differs fld cmp r :
+  cmp (firstn (length fld) (r_rest r)) fld = false -> expect_field_impl fld cmp r = Ok (false, r).
+Proof.
+  intros H. unfold expect_field_impl. rewrite H. destruct (_ =? _)%nat; reflexivity.
+Qed.
+
+Lemma bytes_eqb_head c d a b : c <> d -> bytes_eqb (c :: a) (d :: b) = false.
+Proof. intros H. cbn [bytes_eqb]. apply N.eqb_neq in H. rewrite H. reflexivity. Qed.
+
+(* ---- finite sweeps over the octets ----------------------------------------------------------------------------------------------- *)
+
+Definition octets256 : list N := map N.of_nat (seq 0 256).
+
+Lemma sweep256 (P : N -> bool) : forallb P octets256 = true -> forall c, c < 256 -> P c = true.
+Proof.
+  intros H c Hc. rewrite forallb_forall in H. apply H. unfold octets256.
+  rewrite <- (N2Nat.id c). apply in_map. apply in_seq. lia.
+Qed.
